@@ -29,6 +29,17 @@ def run(tier):
             except Exception as e:  # the sampler raised where the oracle expects a draw
                 O.FAILURES.append("scenario D=%d start_empty=%s: the real code raised %r" % (D, start_empty, e))
             n += 1
+        # a failing embedding draw in each of the W, V2 and V1 blocks (call numbers spread over the sweep), then all three at once
+        ncalls = None
+        for k, D in enumerate((2, 3) if tier != "thorough" else (1, 2, 3, 5)):
+            try:
+                ncalls = O.run_fault_scenario(screen, D, 4000 + k, set()) if ncalls is None else ncalls
+                picks = [{1}, {max(1, ncalls // 2)}, {ncalls}, {2, max(2, ncalls // 2 + 1), max(3, ncalls - 1)}] + [{c} for c in range(1, ncalls + 1, max(1, ncalls // (6 if tier != "thorough" else 40)))]
+                for fc in picks:
+                    O.run_fault_scenario(screen, D, 4100 + k, fc)
+                    n += 1
+            except Exception as e:
+                O.FAILURES.append("failing-draw scenario D=%d: the real code raised %r" % (D, e))
     return [f for f in O.FAILURES if f], n
 
 
@@ -42,7 +53,7 @@ def main():
         print(json.dumps({"violations": [{"what": str(fails[0])[:600]}] if fails else []})); return
     viol = [{"seed": 0, "what": str(fails[0])[:600], "site": "sparse_combo Gibbs sweep"}] if fails else []
     print(json.dumps({"violations": viol, "bounded": [{"function": "LegacySparseDrugComboImpl blocks via SparseDrugCombo.step, fast_mvn.sample_mvn_from_precision",
-        "bound": "%d sampler scenarios (embedding sizes 1..8, started empty or not, observations added in two batches, several sweeps each) on one designed screen (treatments only in first / second / both positions, single-agent rows, samples and treatments without data); 7 precision matrices for the mvn routine" % n,
+        "bound": "%d sampler scenarios (embedding sizes 1..8, started empty or not, observations added in two batches, several sweeps each) on one designed screen (treatments only in first / second / both positions, single-agent rows, samples and treatments without data); 7 precision matrices for the mvn routine; numerically failing embedding draws injected at spread call positions (consistency clauses only)" % n,
         "evaluations": n * 100, "distinct_nontrivial": n, "label": "bounded stand-in, not counted as proved"}]}))
 
 
